@@ -237,6 +237,10 @@ class BundleV1(object):
         if tile.coord is None:
             return True
 
+        if not os.path.exists(self.base_filename + BUNDLEX_V1_EXT):
+            # nothing was stored in this bundle; do not create an index without a bundle file
+            return True
+
         with FileLock(self.lock_filename, directory_permissions=self.directory_permissions,
                       file_permissions=self.file_permissions, remove_on_unlock=True):
             with self.index().readwrite() as idx:
